@@ -143,6 +143,7 @@ inductive Resp
   | append (term lastLog : Nat) (success noRetry : Bool)
   | install (term : Nat) (success : Bool) (err : Bool)
   | timeoutNow
+  | snap (ok : Bool)       -- takeSnapshot: nil / an error
   | none
 deriving DecidableEq, Repr
 
@@ -490,6 +491,39 @@ def isPlan (cf : Cfg) (d : Durable) (v : Vol) (q : ISReq) : Plan :=
 def timeoutNowPlan (v : Vol) : Plan :=
   ⟨[], mkRes .timeoutNow { v with leader := 0, leaderId := 0, role := .candidate, transfer := true }⟩
 
+/-! ## takeSnapshot (snapshot.go:126) and the FSM goroutine's own position (fsm.go) -/
+
+/-- the FSM goroutine's `lastIndex, lastTerm` after it has been handed the entries of
+    `start .. start+n-1` -/
+def fsmAdvance (log : List Entry) : (n : Nat) → (start : Nat) → Nat × Nat → Nat × Nat
+  | 0, _, p => p
+  | n + 1, start, p =>
+    match getLog log start with
+    -- plain FSM (no ConfigurationStore, no batching): commands and barriers move the position; a
+    -- configuration entry returns early from `applySingle` without touching it
+    | some e => fsmAdvance log n (start + 1) (if e.kind = 0 ∨ e.kind = 4 then (e.index, e.term) else p)
+    | none => fsmAdvance log n (start + 1) p
+
+/-- the FSM's content after a list of calls -/
+def fsmDataAfter (data : List Nat) : List FsmCall → List Nat
+  | [] => data
+  | .apply _ _ d :: rest => fsmDataAfter (data ++ [d]) rest
+  | .restore d :: rest => fsmDataAfter d rest
+
+/-- `takeSnapshot`: the FSM goroutine's position and content, the *committed* configuration (refused
+    while that configuration's entry is above the FSM's position), the snapshot made durable, the
+    cached snapshot position advanced (never moved back), then `compactLogs` -/
+def snapPlan (cf : Cfg) (d : Durable) (v : Vol) (fpos : Nat × Nat) (fdata : List Nat) : Plan :=
+  if fpos.1 = 0 then ⟨[], mkRes (.snap false) v⟩                     -- ErrNothingNewToSnapshot
+  else if fpos.1 < v.committedIdx then ⟨[], mkRes (.snap false) v⟩
+  else
+    let s : Snap := ⟨fpos.1, fpos.2, v.committedIdx, v.committed, fdata, true⟩
+    let v1 : Vol := if fpos.1 > v.snapIdx then { v with snapIdx := fpos.1, snapTerm := fpos.2 } else v
+    match CP.compactRange fpos.1 v.lastLogIdx cf.trailing d.low with
+    | none => ⟨[(.snapSave s, mkRes (.snap false) v)], mkRes (.snap true) v1⟩
+    | some (lo, hi) =>
+      ⟨[(.snapSave s, mkRes (.snap false) v), (.deleteRange lo hi, mkRes (.snap false) v1)], mkRes (.snap true) v1⟩
+
 /-! ## restart (`NewRaft`) -/
 
 def emptyVol : Vol := ⟨0, .follower, 0, 0, 0, 0, 0, 0, [], 0, [], 0, 0, 0, false⟩
@@ -536,6 +570,10 @@ def restartCommitted (cf : Cfg) (d : Durable) (v1 : Vol) (calls1 : List FsmCall)
     | some calls => some ({ v1 with commit := ci, applied := if ci ≤ v1.applied then v1.applied else ci }, calls1 ++ calls)
   else some (v1, calls1)
 
+/-- with a restored commit index, a latest configuration at or below it is the committed one -/
+def restartCommitCfg (v : Vol) : Vol :=
+  if v.commit > 0 ∧ v.latestIdx ≤ v.commit then { v with committed := v.latest, committedIdx := v.latestIdx } else v
+
 def restart (cf : Cfg) (d : Durable) : Option (Vol × List FsmCall) :=
   -- `restoreSnapshot`: newest to oldest, the first that opens and restores; snapshots listed but
   -- none usable is an error
@@ -550,6 +588,6 @@ def restart (cf : Cfg) (d : Durable) : Option (Vol × List FsmCall) :=
       let from_ := v2.snapIdx + 1
       match scanConfigs d.log (li + 1 - from_) from_ v2 with
       | none => none
-      | some v3 => some (v3, calls2)
+      | some v3 => some (restartCommitCfg v3, calls2)
 
 end SV
